@@ -138,3 +138,51 @@ func VP_C06_ConeRayNormal() {
 	vp.Assert(cone.RayCollisions(ray, nil) == 2, "the ray enters and leaves through the side")
 	vp.Reach("end")
 }
+
+// VP_C03_Primitives: primitives contain no point outside their reported
+// bounds, and the bounds are valid. Sphere and capsule fully symbolic;
+// cylinder, cone and torus with the axis along a coordinate axis (param
+// axis) and symbolic position, length and radii.
+func VP_C03_Primitives() {
+	p := vpPoint("p")
+	var s Solid
+	axes := []Coord3D{X(1), Y(1), Z(1), Z(-1)}
+	switch vp.Param("shape") {
+	case 0:
+		r := vp.Float64("radius")
+		vp.Assume(r >= 0)
+		s = &Sphere{Center: vpPoint("center"), Radius: r}
+	case 1:
+		r := vp.Float64("radius")
+		vp.Assume(r >= 0)
+		p1 := vpPoint("p1")
+		l := vp.Float64("len")
+		vp.Assume(l > 0)
+		s = &Capsule{P1: p1, P2: p1.Add(axes[vp.Param("axis")].Scale(l)), Radius: r}
+	case 2:
+		r := vp.Float64("radius")
+		vp.Assume(r > 0)
+		p1 := vpPoint("p1")
+		l := vp.Float64("len")
+		vp.Assume(l > 0)
+		s = &Cylinder{P1: p1, P2: p1.Add(axes[vp.Param("axis")].Scale(l)), Radius: r}
+	case 3:
+		r := vp.Float64("radius")
+		vp.Assume(r > 0)
+		base := vpPoint("base")
+		l := vp.Float64("len")
+		vp.Assume(l > 0)
+		s = &Cone{Base: base, Tip: base.Add(axes[vp.Param("axis")].Scale(l)), Radius: r}
+	case 4:
+		ri, ro := vp.Float64("inner"), vp.Float64("outer")
+		vp.Assume(vp.And(ri > 0, ro > ri))
+		s = &Torus{Center: vpPoint("center"), Axis: axes[vp.Param("axis")], InnerRadius: ri, OuterRadius: ro}
+	}
+	mn, mx := s.Min(), s.Max()
+	vp.Assert(vp.All(mn.X <= mx.X, mn.Y <= mx.Y, mn.Z <= mx.Z), "bounds are valid (min <= max)")
+	in := s.Contains(p)
+	vp.Assert(vp.Implies(in, vp.And(p.X >= mn.X, p.X <= mx.X)), "contained points are inside the bounds (x)")
+	vp.Assert(vp.Implies(in, vp.And(p.Y >= mn.Y, p.Y <= mx.Y)), "contained points are inside the bounds (y)")
+	vp.Assert(vp.Implies(in, vp.And(p.Z >= mn.Z, p.Z <= mx.Z)), "contained points are inside the bounds (z)")
+	vp.Reach("end")
+}
